@@ -11,6 +11,16 @@ from .vocab import *  # noqa: F401,F403
 NQ = "nutree.node.Node."
 
 
+def seq_members(x, seq, also_self=False):
+    """every element of the sequence is a registered node of the tree (so it is not None and wf speaks about it)"""
+    j = L.fresh("j", L.I)
+    ok = (lambda e: Or(x.h0.mem(x.T, e), e == x.a.self)) if also_self else (lambda e: x.h0.mem(x.T, e))
+    return z3.ForAll([j], Implies(And(0 <= j, j < L.Len(seq)), ok(L.At(seq, j))), patterns=[L.At(seq, j)])
+
+
+MEMBERS = "every yielded node is a registered node of the tree"
+
+
 def gen_contract(c):
     c.param("self", "node")
     c.result_tag = "pseq"
@@ -23,7 +33,8 @@ def gen_contract(c):
 def _(c):
     gen_contract(c)
     c.ensures("yields Pre(self): each child followed by its own pre-order, children in list order", lambda x: L.SeqEq(x.r, L.pre_post(x.h0)[0](x.a.self)))
-    c.loop(1).invariant = lambda x: x.p.ghost["yielded"] == L.pre_post(x.h0)[1](x.a.self, x.k)
+    c.ensures(MEMBERS, lambda x: seq_members(x, x.r))
+    c.loop(1).invariant = lambda x: And(x.p.ghost["yielded"] == L.pre_post(x.h0)[1](x.a.self, x.k), seq_members(x, x.p.ghost["yielded"]))
     c.loop(1).modifies = ()
 
 
@@ -31,7 +42,8 @@ def _(c):
 def _(c):
     gen_contract(c)
     c.ensures("yields Post(self): each child preceded by its own post-order", lambda x: L.SeqEq(x.r, L.pre_post(x.h0)[2](x.a.self)))
-    c.loop(1).invariant = lambda x: x.p.ghost["yielded"] == L.pre_post(x.h0)[3](x.a.self, x.k)
+    c.ensures(MEMBERS, lambda x: seq_members(x, x.r))
+    c.loop(1).invariant = lambda x: And(x.p.ghost["yielded"] == L.pre_post(x.h0)[3](x.a.self, x.k), seq_members(x, x.p.ghost["yielded"]))
     c.loop(1).modifies = ()
 
 
@@ -55,6 +67,7 @@ def _(c):
         return L.SeqEq(x.r, exp)
 
     c.ensures("yields the documented order; add_self puts the start node first (last for post-order)", post)
+    c.ensures(MEMBERS + " (or the start node itself)", lambda x: seq_members(x, x.r, also_self=z3.is_true(x.a.add_self)))
 
 
 @contract("nutree.typed_tree.TypedNode.iterator", props=("C06",))
@@ -77,6 +90,7 @@ def _(c):
         return L.SeqEq(x.r, exp)
 
     c.ensures("same order as the untyped iterator", post)
+    c.ensures(MEMBERS + " (or the start node itself)", lambda x: seq_members(x, x.r, also_self=z3.is_true(x.a.add_self)))
 
 
 @contract(NQ + "count_descendants", props=("C10",))
@@ -95,7 +109,7 @@ def _(c):
 def _(c):
     """`for n in tree` / tree.iterator(method): the root's iterator without the root itself."""
     c.param("self", "tree").param("method", "enum:pre", "enum:post")
-    c.families = ("plain",)
+    c.families = ("plain", "typed")
     c.result_tag = "pseq"
     c.pure()
     c.requires("wf", lambda x: wf0(x))
@@ -106,3 +120,108 @@ def _(c):
         return L.SeqEq(x.r, Pre(root) if x.a.sv("method").z == "pre" else Post(root))
 
     c.ensures("yields Pre(root) / Post(root): every node once, the invisible root never", post)
+
+    def members(x):
+        j = L.fresh("j", L.I)
+        return z3.ForAll([j], Implies(And(0 <= j, j < L.Len(x.r)), x.h0.mem(x.a.self, L.At(x.r, j))), patterns=[L.At(x.r, j)])
+
+    c.ensures(MEMBERS, members)
+
+
+@contract("nutree.typed_tree.TypedTree.iter_by_type", props=("C15",))
+def _(c):
+    """yields the nodes of that kind in iteration (pre-)order: the kind-filter of Pre(root), a recursive spec
+    sequence (logic.filt_kind); with ANY_KIND every node."""
+    c.param("self", "tree").param("kind", "kind", "anykind")
+    c.families = ("typed",)
+    c.result_tag = "pseq"
+    c.is_generator = True
+    c.pure()
+    c.requires("wf", lambda x: wf0(x))
+    c.requires("kind is a str", lambda x: kind_is_str(x) if not z3.eq(x.a.kind, ANY_KIND) else True)
+
+    def post(x):
+        h0 = x.h0
+        seq = L.pre_post(h0)[0](h0._root(x.a.self))
+        if z3.eq(x.a.kind, ANY_KIND):
+            return L.SeqEq(x.r, seq)
+        return L.SeqEq(x.r, L.filt_kind(h0)(seq, x.a.kind, L.Len(seq)))
+
+    c.ensures("yields exactly the nodes of that kind, in pre-order (every node for ANY_KIND)", post)
+    c.loop(1).invariant = lambda x: x.p.ghost["yielded"] == L.filt_kind(x.h0)(L.pre_post(x.h0)[0](x.h0._root(x.a.self)), x.a.kind, x.k)
+    c.loop(1).modifies = ()
+
+
+@contract(NQ + "_search", props=("C09",))
+def _(c):
+    """The generator behind pattern / predicate searches.  Proved for a *callable* match (the user predicate is a pure
+    oracle): it yields the nodes of ([self] +) Pre(self) for which the predicate is true, in order, and stops right
+    after the k-th match.  The regex forms (str / (str, flags)) go through `re` and are assumed (bounded tier)."""
+    c.param("self", "node").param("match", "cb", "val").param("max_results", "none", "int").param("add_self", "true", "false")
+    c.families = ("plain",)
+    c.result_tag = "pseq"
+    c.is_generator = True
+    c.pure()
+    c.assumed_variants = lambda tags: tags["match"] != "cb"
+    c.prune = True  # a callable match never reaches the regex branches
+    c.assumed_variants_reason = "Node._search with a pattern: re.compile / fullmatch on node.name; checked by the bounded tier (native/props/c09.py)"
+    c.requires("wf, self in P(T)", lambda x: And(wf0(x), self_in_P(x)))
+    c.requires("limit >= 0", lambda x: x.a.max_results >= 0 if x.a.tag("max_results") == "int" else True)
+    c.may_raise("Callback", ensures=None, name="the predicate raises")
+
+    def seq_of(x):
+        Pre = L.pre_post(x.h0)[0]
+        s = x.a.self
+        return L.App(L.Single(s), Pre(s)) if z3.is_true(x.a.add_self) else Pre(s)
+
+    def post(x):
+        if x.a.tag("match") != "val":
+            return z3.BoolVal(True)
+        return Implies(L.v_callable(x.a.match), predicate_sem(x))  # a pattern (str / tuple) is not callable: nothing is claimed
+
+    def predicate_sem(x):
+        seq = seq_of(x)
+        n = L.Len(seq)
+        F = L.filt_cb()
+        cb = x.a.match
+        lim = x.a.max_results if x.a.tag("max_results") == "int" else None
+        import contracts.vocab as V
+
+        if V.RT_EVAL is not None:
+            E = V.RT_EVAL
+            if not callable(E.consts["match"]):
+                return z3.BoolVal(True)
+            want = [e for e in E.value(seq) if E.consts["match"](e)]
+            if lim is not None and E.value(lim) > 0:
+                want = want[: E.value(lim)]
+            got = E.value(x.r)
+            return z3.BoolVal(len(got) == len(want) and all(a is b for a, b in zip(got, want)))
+        full = And(L.SeqEq(x.r, F(seq, cb, n)), (Implies(lim > 0, L.Len(x.r) < lim) if lim is not None else True))
+        if lim is None:
+            return full
+        # index of the element after which the generator stopped: the loop's ghost counter while this contract is proved,
+        # an existential witness (attached to the result) where it is used
+        J = x.p.ghost.get("loopghost", {}).get("j") if getattr(x, "p", None) is not None else None
+        if J is None:
+            J = wit(x, "cutJ", (L.I, L.I))(0)
+        phi_J = L.v_truthy(L.oracle_fn("r")(cb, L.At(seq, J)))
+        # ... the J-th element is the k-th match: it is the last one yielded, and k-1 matches precede it
+        cut = And(lim > 0, L.Len(x.r) == lim, 0 <= J, J < n, L.SeqEq(x.r, F(seq, cb, J + 1)), phi_J,
+                  L.At(x.r, lim - 1) == L.At(seq, J), L.Len(F(seq, cb, J)) == lim - 1)
+        return Or(full, cut)
+
+    c.ensures("yields [n in ([self] +) Pre(self) | match(n)] in order, stopping right after the k-th match", post)
+    lp = c.loop(1)
+    lp.ghost["j"] = (lambda x: z3.IntVal(0), lambda x: x.g.j + 1)
+
+    def inv(x):
+        seq = seq_of(x)
+        F = L.filt_cb()
+        y = x.p.ghost["yielded"]
+        cs = [y == F(seq, x.a.match, x.k), x.v.count == L.Len(y), x.g.j == x.k, x.v.cb_match == x.a.match]
+        if x.a.tag("max_results") == "int":
+            cs.append(Implies(x.a.max_results > 0, x.v.count < x.a.max_results))
+        return And(*cs)
+
+    lp.invariant = inv
+    lp.modifies = ()
